@@ -328,21 +328,24 @@ Definition data_msg (e : entity) : omsg :=
         (map of_ufield (e_data e)) [].
 
 (* visitEnumNode with Prefix set; addValue keeps a name that already has the prefix;
-   a first option whose name ends in UNSPECIFIED takes slot 0 *)
+   a first option that SPELLS the zero value (UNSPECIFIED or <prefix>UNSPECIFIED) takes slot 0
+   (isExplicitZero, fix a65e1f2; before, any first option ending in UNSPECIFIED did) *)
 Definition status_value_name (prefix s : bytes) : bytes :=
   if has_prefix prefix s then s else prefix ++ s.
+Definition is_explicit_zero (prefix s : bytes) : bool :=
+  bytes_eqb (status_value_name prefix s) (prefix ++ bs "UNSPECIFIED").
 Fixpoint number_from (i : N) (prefix : bytes) (l : list bytes) : list (bytes * N) :=
   match l with
   | [] => []
   | s :: r => (status_value_name prefix s, i) :: number_from (N.succ i) prefix r
   end.
 (* [n0]: the number the FIRST option declares (0 = none).  visitEnumNode numbers the options by
-   POSITION; a declared number is ignored, except that a first option ending in UNSPECIFIED takes
+   POSITION; a declared number is ignored, except that a first option spelling the zero value takes
    slot 0 only when it declares no (non-zero) number *)
 Definition status_values_n (prefix : bytes) (l : list bytes) (n0 : N) : list (bytes * N) :=
   match l with
   | s :: r =>
-      if has_suffix (bs "UNSPECIFIED") s && (n0 =? 0)
+      if is_explicit_zero prefix s && (n0 =? 0)
       then (status_value_name prefix s, 0) :: number_from 1 prefix r
       else (prefix ++ bs "UNSPECIFIED", 0) :: number_from 1 prefix l
   | [] => [(prefix ++ bs "UNSPECIFIED", 0)]
@@ -783,17 +786,6 @@ Definition scopes (cs : list component) : list (list bytes) :=
   [file_scope 0 cs; file_scope 1 cs; file_scope 2 cs] ++ inner_scopes cs.
 Definition link_ok (cs : list component) : bool := forallb nodup_bytes (scopes cs).
 
-(* the whole compile of one source file: the parser's validation of the declaration
-   (sourcedef Entity.status is `required`: an entity without a status is rejected before the
-   walker runs), conversion of every entity, then linking of the three files *)
-Definition compile_file (es : list entity) : outcome (list component) :=
-  if existsb (fun e => is_nil (e_status e)) es then Err "value is required"
-  else match convert_all es with
-       | Ok cs => if link_ok cs then Ok cs else Err "symbol already defined"
-       | o => o
-       end.
-Definition compile (e : entity) : outcome (list component) := compile_file [e].
-
 (* what protodesc.NewFiles (structure.APIFromImage, the first step towards the client API)
    rejects although the compiler linked it: an open enum with two values whose names coincide once
    the enum-name prefix is trimmed (case-insensitively, ignoring '_') and the rest is put into
@@ -831,6 +823,104 @@ Definition enum_accepts (name : bytes) (vs : list (bytes * N)) : bool :=
 Definition client_accepts (cs : list component) : bool :=
   forallb (fun c => match c with CEnum n vs => enum_accepts n vs | _ => true end) cs.
 
+(* ---- enum options with colliding protobuf names (fix 4fb405b in /repo, j5convert visitEnumNode) -----
+   every enum the conversion builds (the status enum, the enums of the block, inline enums at any
+   depth) is checked with protoc's rule: two values whose canonical names coincide - enum-name prefix
+   removed ignoring case and '_', the rest in PascalCase - are a positioned conversion error at the later
+   option ("conflicts with option" / "is defined more than once"), collected with the other
+   conversion errors.  [enum_accepts] above is that rule (protodesc applies the same one, so
+   [client_accepts] holds of everything the compiler accepts since the fix). *)
+Definition inline_enum_ok (f : ofield) : bool :=
+  match inline_of f with
+  | Some (n, _, il) =>
+      if il_kind il =? 2 then enum_accepts n (status_values (to_screaming_snake n ++ [95]) (il_options il)) else true
+  | None => true
+  end.
+Fixpoint tfield_enums_ok (t : tfield) : bool :=
+  inline_enum_ok (of_tfield t)
+  && match t with TF _ (TKInline _ _ fs _) _ _ _ => forallb tfield_enums_ok fs | _ => true end.
+Definition ufield_enums_ok (u : ufield) : bool :=
+  inline_enum_ok (of_ufield u) && forallb tfield_enums_ok (tree_of (of_ufield u)).
+(* on the declaration: the status enum, the block's enums, the inline enums of every user field *)
+Definition decl_enums_ok (e : entity) : bool :=
+  client_accepts (status_enum e :: map schema_component (e_schemas e))
+  && forallb ufield_enums_ok (all_ufields e).
+
+(* ---- reserved names (fix a5547b9 in /repo) ------------------------------------------------------
+   entityNode.run starts with checkReservedNames: a name the expansion itself puts into the same
+   message is rejected at its source position (walker error, aborts the walk) instead of failing at
+   link time inside a generated file - the entity's own response property next to page / events, a
+   path key next to page / query, an event whose oneof option would be `type`, a summary field next
+   to upsert.  visitOneofNode (j5convert) reports an option named `type` of ANY j5 oneof (block
+   oneofs, inline oneofs at any depth) as a positioned conversion error, collected with the others. *)
+Definition own_response_name (e : entity) : bytes := to_snake (to_lower_camel (to_snake (e_name e))).
+Definition events_in_get (e : entity) : bool :=
+  match e_query e with Some q => q_events_in_get q | None => false end.
+Definition path_key_reserved (k : ekey) : bool :=
+  is_key_field (k_def k) && (is_primary (k_def k) || k_shard k)
+  && (bytes_eqb (to_snake (uf_name (k_def k))) (bs "page") || bytes_eqb (to_snake (uf_name (k_def k))) (bs "query")).
+Definition walker_reserved_free (e : entity) : bool :=
+  negb (bytes_eqb (own_response_name e) (bs "page"))
+  && negb (events_in_get e && bytes_eqb (own_response_name e) (bs "events"))
+  && forallb (fun k => negb (path_key_reserved k)) (e_keys e)
+  && forallb (fun ev => negb (bytes_eqb (to_snake (to_lower_camel (ev_name ev))) (bs "type"))) (e_events e)
+  && forallb (fun s => forallb (fun u => negb (bytes_eqb (to_snake (uf_name u)) (bs "upsert"))) (s_fields s))
+             (e_summaries e).
+(* options named `type`: k = 1 is a oneof *)
+Definition named_type (n : bytes) : bool := bytes_eqb (to_snake n) (bs "type").
+Fixpoint tfield_type_option (t : tfield) : bool :=
+  match t with
+  | TF _ (TKInline k _ fs _) _ _ _ =>
+      ((k =? 1) && existsb (fun x => named_type (tf_name x)) fs) || existsb tfield_type_option fs
+  | _ => false
+  end.
+Definition ufield_type_option (u : ufield) : bool :=
+  match uf_kind u with
+  | KInlineOneof opts => existsb (fun o => named_type (sf_name o)) opts
+  | KInlineTree k fs => ((k =? 1) && existsb (fun x => named_type (tf_name x)) fs) || existsb tfield_type_option fs
+  | _ => false
+  end.
+Definition oneof_type_free (e : entity) : bool :=
+  forallb (fun s => match s with
+                    | SOneof _ opts => negb (existsb (fun u => named_type (uf_name u)) opts)
+                    | _ => true end) (e_schemas e)
+  && negb (existsb ufield_type_option (all_ufields e)).
+
+(* the walker's pass over one declaration / over the file: its first error aborts the conversion
+   (ConvertJ5File returns "schema error: ..." alone, whatever the visitors collected before) *)
+Definition walk (e : entity) : outcome (list component) :=
+  if walker_reserved_free e then expand e else Err "reserved name".
+Fixpoint walk_all (es : list entity) : outcome (list component) :=
+  match es with
+  | [] => Ok []
+  | e :: r =>
+      match walk e with
+      | Ok a => match walk_all r with Ok b => Ok (a ++ b) | o => o end
+      | o => o
+      end
+  end.
+
+(* the whole compile of one source file: the parser's validation of the declaration
+   (sourcedef Entity.status is `required`: an entity without a status is rejected before the
+   walker runs), the walk (first walker error of the file), the collected conversion errors (the
+   harness classifies a joint message as "reserved name" first, as "enum option conflict" second), then
+   linking of the three files *)
+Definition compile_file (es : list entity) : outcome (list component) :=
+  if existsb (fun e => is_nil (e_status e)) es then Err "value is required"
+  else match walk_all es with
+       | Ok _ =>
+           if forallb oneof_type_free es then
+             if forallb decl_enums_ok es then
+               match convert_all es with
+               | Ok cs => if link_ok cs then Ok cs else Err "symbol already defined"
+               | o => o
+               end
+             else Err "enum option conflict"
+           else Err "reserved name"
+       | o => o
+       end.
+Definition compile (e : entity) : outcome (list component) := compile_file [e].
+
 (* error classes, as the harness classifies the real compiler's message (errClass in c17.go) *)
 Definition err_class (s : string) : N :=
   if String.eqb s "status not found in entity" then 1
@@ -841,4 +931,6 @@ Definition err_class (s : string) : N :=
   else if String.eqb s "symbol already defined" then 6
   else if String.eqb s "value is required" then 7
   else if String.eqb s "listRequest is not supported on a method" then 8
+  else if String.eqb s "reserved name" then 9
+  else if String.eqb s "enum option conflict" then 10
   else 99.
